@@ -40,8 +40,9 @@ def c12(work, tier, seed):
     pol = design_check("MC_Policy", "MC_PolicyHost.cfg", work, workers=8, timeout=600)
     rng = random.Random(seed)
     scripts = []
-    hostlists = [[["H1", ":", "PA"]], [["H1", ":", "PA"], ["H1", ":", "PB"]], [["H127", "PH", ":", "PA"]], [["H1", ":", "PA"], ["H127", "PH", ":", "PB"]]]
-    params = ["absent", "listed", "listed2", "unlisted", "qtok-ok", "qtok-unlisted", "qtok-forged", "qtok-expired", "qtok-wrongiss", "garbage"]
+    hostlists = [[["H1", ":", "PA"]], [["H1", ":", "PA"], ["H1", ":", "PB"]], [["H127", "PH", ":", "PA"]], [["H1", ":", "PA"], ["H127", "PH", ":", "PB"]], [["HL", ":", "PA"], ["H1", ":", "PB"]]]
+    params = ["absent", "listed", "listed2", "unlisted", "qtok-ok", "qtok-unlisted", "qtok-forged", "qtok-expired", "qtok-wrongiss", "garbage",
+              "near-otherport", "near-noport", "near-case", "near-supername", "qtok-near"]
     addrs = [("", ""), ("", "10.1.2.3"), ("127.0.0.2", ""), ("", "10.1.2.3, 192.168.0.1"), ("::1", ""), ("127.0.0.2", " 10.9.9.9 ,10.1.1.1"),
              ("", "2001:db8::17"), ("", "2001:db8::17, 10.0.0.1"), ("::1", "fe80::1%eth0"), ("", "10.1.2.3:4711")]
     for sel in ("roundrobin", "unsigned", "any", "signed"):
@@ -54,6 +55,8 @@ def c12(work, tier, seed):
                             if session != "authed" and param not in ("absent", "listed", "qtok-ok"):
                                 continue
                             if tier == "quick" and split and param not in ("absent", "listed", "qtok-ok"):
+                                continue
+                            if param == "near-case" and not any("HL" in h for h in hosts):
                                 continue
                             user = "7" if any("PH" in h for h in hosts) else ("bob@corp.example" if split else "user1")
                             peer, xff = addrs[len(scripts) % len(addrs)]
@@ -91,6 +94,28 @@ def c05(work, tier, seed):
             methods = METHODS if tier == "thorough" else (["RDG_OUT_DATA", "RDG_IN_DATA"] if az in ("basic-right", "ntlm-right", "absent", "negotiate-ntlm-right") else [METHODS[stable_hash(az + str(ms) + str(seed)) % len(METHODS)]])
             for mt in methods:
                 scripts.append({"id": "h%05d" % len(scripts), "cfg": cfg, "method": mt, "authz": az})
+    # a client that keeps cookies (Front!Handle with jar = TRUE): after a request that was confirmed and reached the
+    # handler, every cookie the gateway set is sent along with a second request of each class
+    SECOND = ["absent", "empty", "bare-basic", "bare-ntlm", "basic-wrongpw", "basic-unknown", "basic-notbase64", "basic-nocolon", "basic-right-8", "basic-right",
+              "ntlm-wrongpw", "ntlm-unknown", "ntlm-garbage", "ntlm-auth-first", "ntlm-right", "embedded-scheme", "negotiate-krb-garbage"]
+    jar_states = {tuple(sorted(parse_tla_value(state_vars(nodes[n])["m"]))) for n in nodes if state_vars(nodes[n])["jar"] == "TRUE"}
+    for ms in msets:
+        if ms not in jar_states or ms == ("openid",):
+            continue
+        cfg = {"tokenAuth": "openid" in ms, "smartCard": False, "auths": list(ms), "auth": "", "sel": "roundrobin", "hosts": [["H1", ":", "PA"]], "verifyIp": True, "idle": 0,
+               "tls": "local" in ms}
+        priors = []
+        if "local" in ms:
+            priors += [[{"method": "GET", "authz": "basic-right"}], [{"method": "RDG_IN_DATA", "authz": "basic-right"}], [{"method": "POST", "authz": "basic-right"}, {"method": "GET", "authz": "basic-wrongpw"}]]
+        if "ntlm" in ms:
+            priors += [[{"method": "GET", "authz": "ntlm-right"}], [{"method": "PUT", "authz": "negotiate-ntlm-right"}]]
+        for pr in priors:
+            for az in SECOND:
+                if tier == "quick" and stable_hash(az + str(ms) + str(pr) + str(seed)) % 2 and az not in ("basic-wrongpw", "ntlm-wrongpw", "bare-basic", "absent", "basic-right-8"):
+                    continue
+                mt = ["RDG_OUT_DATA", "RDG_IN_DATA", "GET"][stable_hash(az + str(pr) + str(ms) + str(seed)) % 3] if tier == "quick" else None
+                for m2 in ([mt] if mt else ["RDG_OUT_DATA", "RDG_IN_DATA", "GET"]):
+                    scripts.append({"id": "h%05d" % len(scripts), "cfg": cfg, "method": m2, "authz": az, "prior": pr})
     out, rep, res = fa.generic("C05", work, tier, seed, "front", "FrontTrace", scripts, design,
                                lambda v: "%s/%s/%s" % (v["guard"], v["a"], v["b"]),
                                "Front.tla: ShouldReach / Challenges over every startable mechanism set x request class (design). Conformance: the real binary (TLS where local auth needs it) with the real rdpgw-auth (stub PAM, NTLM "
